@@ -138,3 +138,36 @@ Proof.
   intros A j Hj Hs x. pose proof A as (Hk & Hn & Len & ND & He & Hl).
   rewrite dotR_ones. apply P_unity; auto; try lia. apply tn_mono; auto.
 Qed.
+
+(* ------------------------------------------------------------------ Marsden: explicit c* *)
+(* p(x) = Sigma_q a_q (x - tau_q)^(k-1), given as the list of (a_q, tau_q).  These functions span the
+   polynomials of degree < k (that spanning statement itself is not formalised). *)
+Definition shifted_powers (k : nat) (l : list (R * R)) (x : R) : R :=
+  fold_right (fun q acc => fst q * (x - snd q) ^ (k - 1) + acc) 0 l.
+Definition marsden_coeffs (k n : nat) (t : list R) (l : list (R * R)) : list R :=
+  map (fun i => fold_right (fun q acc => fst q * psi (tn t) k i (snd q) + acc) 0 l) (seq 0 n).
+
+Lemma dotR_map_seq (f g : nat -> R) n : forall s,
+  dotR (map f (seq s n)) (map g (seq s n)) = sumf (fun i => f (s + i)%nat * g (s + i)%nat) n.
+Proof.
+  induction n; intros s. reflexivity.
+  cbn [seq map dotR]. rewrite IHn, sumf_shift. replace (s + 0)%nat with s by lia. f_equal.
+  apply sumf_ext. intros i _. replace (S s + i)%nat with (s + S i)%nat by lia. reflexivity.
+Qed.
+
+Lemma sumf_lin (f g h : nat -> R) a n :
+  sumf (fun i => f i * (a * g i + h i)) n = a * sumf (fun i => g i * f i) n + sumf (fun i => f i * h i) n.
+Proof. induction n. simpl; ring. rewrite !sumf_S, IHn. ring. Qed.
+
+Lemma marsden_reproduces k n t l : admissible k n t ->
+  forall j, (k - 1 <= j <= n - 1)%nat -> tn t j < tn t (S j) ->
+  forall x, dotR (map (fun i => P (tn t) j k i x) (seq 0 n)) (marsden_coeffs k n t l)
+            = shifted_powers k l x.
+Proof.
+  intros A j Hj Hs x. pose proof A as (Hk & Hn & Len & ND & He & Hl).
+  unfold marsden_coeffs. rewrite dotR_map_seq. cbn [plus].
+  induction l as [|[a tau] l IH]; cbn [fold_right fst snd shifted_powers].
+  - rewrite (sumf_ext _ (fun _ => 0)) by (intros; ring). apply sumf_zero.
+  - rewrite sumf_lin. rewrite IH. f_equal. f_equal.
+    apply marsden; auto; try lia. apply tn_mono; auto.
+Qed.
